@@ -86,14 +86,14 @@ class StepLimit(Exception):
 # ---------------------------------------------------------------------------------------------------
 class Model:
     """data model of a target: csem.DataModel (integer sizes, char signedness) + pointer size;
-    alignment of every scalar = min(size, max_align) (natural alignment)"""
+    alignment of every scalar = its size (natural alignment) unless the target's ABI says otherwise (`aligns`)"""
 
-    def __init__(self, name, dm, ptr_bytes, max_align=8):
+    def __init__(self, name, dm, ptr_bytes, aligns=None):
         self.name = name
         self.dm = dm
         self.ptr_bytes = ptr_bytes
         self.ptr_bits = 8 * ptr_bytes
-        self.max_align = max_align
+        self.aligns = dict(aligns or {})     # base type name / "ptr" -> alignment, where it is not the size
         by_size = {dm.size(t): t for t in ("llong", "long", "int")}   # the lowest rank >= int wins
         self.ptrdiff_t = by_size[ptr_bytes]
         self.size_t = "u" + self.ptrdiff_t
@@ -123,6 +123,12 @@ class Model:
     def hi(self, t):
         return self.dm.hi(self._b(t))
 
+    def align(self, t):
+        if t == "ptr":
+            return self.aligns.get("ptr", self.ptr_bytes)
+        b = csem._BASE[self._b(t)]
+        return self.aligns.get(b, self.dm.size(b))
+
     def lit_type(self, value, suffix):
         """6.4.4.1p5, decimal constants"""
         s = suffix.lower()
@@ -136,7 +142,7 @@ class Model:
 
 LP64 = Model("lp64", csem.LP64, 8)
 ILP32 = Model("ilp32", csem.ILP32, 4)
-IP16 = Model("ip16", csem.IP16, 2)
+IP16 = Model("ip16", csem.IP16, 2, aligns={"long": 2})     # msp430 EABI: 32-bit objects are 2-byte aligned
 
 
 def T(t):
@@ -593,9 +599,9 @@ class CSem:
 
     def alignof(self, t):
         if is_int(t):
-            return min(self.M.size(t), self.M.max_align)
+            return self.M.align(t)
         if is_ptr(t):
-            return min(self.M.ptr_bytes, self.M.max_align)
+            return self.M.align("ptr")
         if is_arr(t):
             return self.alignof(t[1])
         if is_struct(t):
